@@ -366,6 +366,11 @@ pub enum Step {
     Noise { slot: usize, on: bool, sparse: bool },
     /// the client's game inserts or removes a local, unreplicated component on its copy of the entity (`Cfg::noise`)
     ClientNoise { client: usize, slot: usize, on: bool },
+    /// One legal history made frequent (short acknowledgement timeouts): every entity's `A` changes, tick, the client's mutate
+    /// messages are lost; frames pass until the timeout has forgotten them (with ticks in between, the data is re-sent and lost
+    /// again); then every payload `C` changes (a tick split into several messages), only the messages selected by `mask` arrive
+    /// and are acknowledged; then `k` changes on `slot`, tick, everything is delivered.
+    TimeoutEpisode { client: usize, slot: usize, k: K, mask: u8 },
     /// mark component `k` changed without giving it a new value (`set_changed`; `Cfg::noise`)
     Touch { slot: usize, k: K },
 }
